@@ -162,7 +162,7 @@ class CheckC18(core.Check):
             res = kw.get("res")
             kind = exp[0]
             if e.panic:
-                r.foreign_dev("C10", "%s panicked: %s" % (op, e.res[:100]))
+                r.viol("C18|panic|%s|%s|%s" % (kind, exp[1], res), "backend %s: %s on a well-formed input panicked: %s" % (res, op, e.res[:120]))
                 continue
             if e.skipped or e.res == "none":
                 r.inconclusive.append("primitive op not executed: %s %s" % (op, e.res))
